@@ -292,11 +292,11 @@ func c16PickNames(rng *rand.Rand) (groups, topics []string) {
 
 func TestVerifC16Coord(t *testing.T) {
 	r := verifkit.Start(t, "C16", "coord")
-	defer r.Finish("PRNG sequences of OffsetCommit / OffsetFetch requests (1-4 partitions per request, several topics) sent to a GroupCoordinator whose members joined first, over 3 groups x 3 topics x 2-3 partitions drawn from a hostile alphabet (':' and '/' placed so that separator-joined keys of different tuples coincide, unicode, empty, blank), each sequence run on InMemoryStore and on EtcdStore (embedded etcd, emptied before the case); also commits with a stale generation, an unknown member or a group nobody joined (answered with an error code: they must stay invisible); reference = map keyed by the tuple (group, topic, partition) holding the last commit answered with error code 0; every partition of every OffsetFetch response must carry exactly that offset and metadata, or offset -1 if the tuple has no successful commit; finally every tuple is fetched once more; every committed offset is unique so a wrong answer names the commit it came from; non-trivial = case with >=3 successful commits, a fetch of a committed tuple and a fetch of a never-committed tuple",
+	defer r.Finish("PRNG sequences of OffsetCommit / OffsetFetch requests (1-4 partitions per request, several topics) sent to a GroupCoordinator whose members joined first, over 3 groups x 3 topics x 2-3 partitions drawn from a hostile alphabet (':' and '/' placed so that separator-joined keys of different tuples coincide, unicode, empty, blank), each sequence run on InMemoryStore and on EtcdStore (embedded etcd, emptied before the case); also commits with a stale generation, an unknown member or a group nobody joined (answered with an error code: they must stay invisible); reference = map keyed by the tuple (group, topic, partition) holding the last commit answered with error code 0; every partition of every OffsetFetch response must carry exactly that offset and metadata, or offset -1 if the tuple has no successful commit; finally every tuple is fetched once more, through the same coordinator and through a second coordinator started on the same store; every committed offset is unique so a wrong answer names the commit it came from; non-trivial = case with >=3 successful commits, a fetch of a committed tuple and a fetch of a never-committed tuple",
 		"a partition answered with an error code decides nothing about its offset; a store error (etcd timeout under load) discards the attempt and the case is re-run",
 		"duplicate tuples inside one request are not generated (their order of application is not specified)")
 	etcd := c16StartEtcd(t)
-	n := r.N(50, 1500)
+	n := r.N(50, 1200)
 	for ci := 0; ci < n; ci++ {
 		for _, kind := range []string{"memory", "etcd"} {
 			done := false
@@ -325,7 +325,7 @@ func c16CoordCase(r *verifkit.Run, etcd *c16Etcd, kind string, ci int) (bool, st
 	}
 	defer env.close()
 	coord := NewGroupCoordinator(env.store, protocol.MetadataBroker{NodeID: 1, Host: "localhost", Port: 9092}, &CoordinatorConfig{CleanupInterval: time.Hour})
-	defer coord.Stop()
+	defer func() { coord.Stop() }()
 
 	groups, topics := c16PickNames(rng)
 	var parts []int32
@@ -476,18 +476,26 @@ func c16CoordCase(r *verifkit.Run, etcd *c16Etcd, kind string, ci int) (bool, st
 			}
 		}
 	}
-	// read everything back
-	for _, g := range groups {
-		if abort != "" {
-			break
+	// read everything back, first through the coordinator that took the commits, then through a
+	// second coordinator started on the same store (a broker that takes over the group)
+	for pass := 0; pass < 2; pass++ {
+		if pass == 1 {
+			coord.Stop()
+			coord = NewGroupCoordinator(env.store, protocol.MetadataBroker{NodeID: 2, Host: "localhost", Port: 9093}, &CoordinatorConfig{CleanupInterval: time.Hour})
+			trace = append(trace, "-- second coordinator on the same store --")
 		}
-		var all []c16Tuple
-		for _, tn := range topics {
-			for _, p := range parts {
-				all = append(all, c16Tuple{g, tn, p})
+		for _, g := range groups {
+			if abort != "" {
+				break
 			}
+			var all []c16Tuple
+			for _, tn := range topics {
+				for _, p := range parts {
+					all = append(all, c16Tuple{g, tn, p})
+				}
+			}
+			fetch(g, all)
 		}
-		fetch(g, all)
 	}
 	if abort != "" {
 		return false, abort
@@ -549,7 +557,7 @@ func TestVerifC16Conc(t *testing.T) {
 		},
 		DescribeOperation: func(in, out any) string { return fmt.Sprintf("%+v -> %+v", in, out) },
 	}
-	n := r.N(50, 1200)
+	n := r.N(50, 1000)
 	var clock atomic.Int64
 	for ci := 0; ci < n; ci++ {
 		for _, kind := range []string{"memory", "etcd"} {
